@@ -30,12 +30,11 @@ Proof. repeat split; reflexivity. Qed.
 
 (* structural ties: the guards and wiring that no clock-driven test can reach
    exactly (an expiry guard is "<= 0", refusal is "<= 0", the ECS cap guard, the
-   TTL manager's arguments, the initial value and clamp tests of the minimum) are
-   re-read from the source on every run *)
+   TTL manager's arguments) are re-read from the source on every run; the initial value and
+   the clamp tests of CalculateCacheTTL's minimum were pins here until the function itself was
+   translated (Proofs_Calc.v gen_CalculateCacheTTL) *)
 Lemma gen_guards :
   positive_cache_bounds = [[109;105;110;84;84;76;44;32;109;97;120;84;84;76]%N]              (* "minTTL, maxTTL" *)
-  /\ calc_initial_ttl = [[77;97;120;67;97;99;104;101;84;84;76]%N]               (* "MaxCacheTTL" *)
-  /\ calc_clamp_tests = [[60;32;77;105;110;67;97;99;104;101;84;84;76]%N; [62;32;77;97;120;67;97;99;104;101;84;84;76]%N]           (* "< MinCacheTTL", "> MaxCacheTTL" *)
   /\ ecs_cap_guard = [[115;99;111;112;101;100;32;38;38;32;115;46;99;102;103;46;69;67;83;77;97;120;84;84;76;32;62;32;48;32;38;38;32;116;116;108;32;62;32;115;46;99;102;103;46;69;67;83;77;97;120;84;84;76]%N]
   /\ tomsg_expiry_guard = [[114;101;109;97;105;110;105;110;103;84;84;76;32;60;61;32;48]%N]             (* "remainingTTL <= 0" *)
   /\ wire_expiry_guards = [[114;101;109;97;105;110;105;110;103;32;60;61;32;48]%N; [114;101;109;97;105;110;105;110;103;32;60;61;32;48]%N]         (* "remaining <= 0", both wire builders *)
